@@ -298,7 +298,13 @@ def _r2(w: World, rep: Report, eff: Effects):
             ok, why = True, ''
             node = [n for n in cfg.nodes if n.line == wr.line and n.kind == 'stmt']
             node = node[0] if node else None
-            if wr.op == 'append' and node is not None:
+            if wr.op in ('append', 'insert') and node is not None:
+                # insert(i, x) files one entry like append does; the position is a matter of order, not of membership
+                if wr.op == 'insert':
+                    calls = [x for x in ast.walk(node.ast) if isinstance(x, ast.Call) and isinstance(x.func, ast.Attribute)
+                             and x.func.attr == 'insert' and len(x.args) == 2]
+                    if calls:
+                        wr = type('W', (), {'key': calls[0].args[1], 'op': 'insert', 'path': wr.path, 'line': wr.line})()
                 ok = _dominated_by_membership(cfg, node, wr, want_present=False)
                 why = '' if ok else 'list registry appended without an `x not in registry` guard: duplicates accumulate'
             elif wr.op in ('remove', 'del') and node is not None:
@@ -342,7 +348,7 @@ def _r2(w: World, rep: Report, eff: Effects):
                 ok = (call is not None and len(call.args) == 2) or \
                     (node is not None and _dominated_by_membership(cfg, node, wr, want_present=True))
                 why = '' if ok else 'entry popped without a default and without an `x in registry` guard: removing an absent entry raises'
-            elif wr.op in ('clear', 'popitem', 'update', 'extend', 'insert'):
+            elif wr.op in ('clear', 'popitem', 'update', 'extend'):
                 ok = wr.op in ('clear',) and key.split('.')[-1].startswith('reset_')
                 why = '' if ok else f'registry mutated with .{wr.op}()'
             rep.check('C19.R2s', f'{key}|{wr.op}@{wr.path}', ok, line=wr.line, file=w.repo.rel(fi.module.path), why=why)
